@@ -485,6 +485,33 @@ func (c *ctx) rewriteList(holder ast.Node, list []ast.Stmt) []ast.Stmt {
 			}
 			out = append(out, s)
 
+		case *ast.ReturnStmt:
+			hit := false
+			for _, r := range st.Results {
+				if containsAtomic(r) {
+					hit = true
+				}
+			}
+			if hit {
+				out = append(out, hookStmt("Yield", strLit(c.site("atomic"))), s)
+				continue
+			}
+			out = append(out, s)
+
+		case *ast.DeclStmt:
+			if containsAtomic(st) {
+				out = append(out, hookStmt("Yield", strLit(c.site("atomic"))), s)
+				continue
+			}
+			out = append(out, s)
+
+		case *ast.SwitchStmt:
+			if (st.Tag != nil && containsAtomic(st.Tag)) || (st.Init != nil && containsAtomic(st.Init)) {
+				out = append(out, hookStmt("Yield", strLit(c.site("atomic"))), s)
+				continue
+			}
+			out = append(out, s)
+
 		case *ast.GoStmt:
 			out = append(out, c.rewriteGo(st))
 
